@@ -355,6 +355,20 @@ func (vc *VC) dispatchCall2(st *State, call *ast.CallExpr, recv *Term, args []Te
 				}
 			}
 		}
+		// a call through a struct field declared "purefunc" in the type's contract (an injected
+		// clock or random source): assumed not to touch the program's heap
+		if sel, ok := ast.Unparen(call.Fun).(*ast.SelectorExpr); ok {
+			if s, isSel := info.Selections[sel]; isSel && s.Kind() == types.FieldVal {
+				if tc := vc.prog.DB.Types[typeName(s.Recv())]; tc != nil {
+					for _, pf := range tc.PureFuncs {
+						if pf == sel.Sel.Name {
+							vc.notes["call through purefunc field "+typeName(s.Recv())+"."+pf+": assumed to touch no program state"]++
+							return vc.freshResults(st, call, "pf")
+						}
+					}
+				}
+			}
+		}
 		vc.opaque["func value "+exprText(vc, call.Fun)]++
 		vc.havocHeap(st, "funcvalue")
 		return vc.freshResults(st, call, "fv")
